@@ -435,12 +435,21 @@ func heurAfterBiasCase(o *Out, r *Rng, c int) {
 	mp := q.Body["methodParameters"].(J)
 	mp["function"], mp["params"] = sk.fn, heurLevelsParams(coef, mx, mn)
 	var bl []interface{}
+	onlyOmission := true
 	for i, nb := 0, r.rangeInt(1, 2); i < nb; i++ {
-		name := []string{"criteriaMixing", "criteriaConcealment", "fatigue", "preferenceReversal", "anchoring"}[r.Intn(5)]
+		name := []string{"criteriaMixing", "criteriaConcealment", "fatigue", "preferenceReversal", "anchoring", "criteriaOmission", "criteriaOmission"}[r.Intn(7)]
 		if name == "criteriaMixing" && i > 0 {
 			name = "fatigue" // mixing after a state change is a registered C07 finding
 		}
+		if name != "criteriaOmission" {
+			onlyOmission = false
+		}
 		pr := biasPropsJSON(r, name, q.Problem)
+		if name == "criteriaOmission" {
+			pr["max"] = len(q.Problem.Criteria) - 1 - i
+			delete(pr, "min")
+			pr["ratio"] = 0.5
+		}
 		if name == "criteriaMixing" || name == "criteriaConcealment" {
 			pr["referenceCriterionType"] = "importanceRatio"
 			pr["newCriterionImportance"] = float64(r.Intn(5)) / 4
@@ -495,6 +504,13 @@ func heurAfterBiasCase(o *Out, r *Rng, c int) {
 		}
 	}
 	m := Meta{Case: c, Stage: "check-c14-after-biases", Input: J{"request": q.Body}, Key: string(js), GoOut: levels}
-	o.Spec(m, L(A("check-c14"), A(sk.kind), Num(coef), Num(mx), Num(mn), critsSX(crits), altsSX(dF.AllAlternatives()), heurLevelsResSX(levels, msg)))
+	alts := dF.AllAlternatives()
+	if onlyOmission && len(dF.Criteria) >= 1 {
+		// omissions change no value: "the range over all known alternatives" is the range over the REQUEST's
+		// known alternatives, whatever the bias handed on
+		alts = fresh.KnownAlternatives
+		o.count("after-biases:ranges-from-request")
+	}
+	o.Spec(m, L(A("check-c14"), A(sk.kind), Num(coef), Num(mx), Num(mn), critsSX(crits), altsSX(alts), heurLevelsResSX(levels, msg)))
 	o.count("after-biases")
 }
